@@ -131,6 +131,22 @@ def overlaps_mesh(g, tri):
 
 # ----------------------------------------------------------------------------- recipes
 
+def patch_op(g, x, y, n):
+    """the operation `reduce` to a connected patch of at most n columns around the column nearest to (x, y)
+    (used to cut the shipped geometries down to size; being an operation, the oracle watches it like any other)"""
+    c0 = min(g.columnlist, key=lambda c: (c.centre[0] - x) ** 2 + (c.centre[1] - y) ** 2)
+    patch, frontier = [c0], [c0]
+    seen = {id(c0)}
+    while frontier and len(patch) < n:
+        nxt = []
+        for c in frontier:
+            for nb in sorted(c.neighbour, key=ckey):
+                if id(nb) not in seen and len(patch) < n:
+                    seen.add(id(nb)); patch.append(nb); nxt.append(nb)
+        frontier = nxt
+    return ['reduce', {'cols': [col_loc(c) for c in patch]}]
+
+
 def build(mg, recipe):
     """a real mulgrid from a recipe (dict).  Raises on a malformed recipe (machinery error)."""
     import numpy as np
@@ -157,20 +173,6 @@ def build(mg, recipe):
         elif kind == 'file':
             from core import REPO
             g = mg.mulgrid(str(REPO / recipe['path']))
-            keep = recipe.get('reduce')
-            if keep is not None:
-                # a connected patch of at most `keep[2]` columns around the column nearest to (keep[0], keep[1])
-                c0 = min(g.columnlist, key=lambda c: (c.centre[0] - keep[0]) ** 2 + (c.centre[1] - keep[1]) ** 2)
-                patch, frontier = [c0], [c0]
-                seen = {id(c0)}
-                while frontier and len(patch) < keep[2]:
-                    nxt = []
-                    for c in frontier:
-                        for nb in sorted(c.neighbour, key=ckey):
-                            if id(nb) not in seen and len(patch) < keep[2]:
-                                seen.add(id(nb)); patch.append(nb); nxt.append(nb)
-                    frontier = nxt
-                g.reduce(patch)
         else:
             raise ValueError('unknown recipe kind %r' % kind)
         for loc, z in recipe.get('surfaces', []):
@@ -680,13 +682,30 @@ def judge(name, exc, prev, cur, suffix=''):
     return out
 
 
+def judge_start(inv):
+    """the start geometry was built by the library's own constructors (rectangular, the file reader, or add_node /
+    add_column / add_connection / add_layers from the empty geometry): it is itself the result of a sequence of
+    edits and must satisfy the invariant (mesh validity is not demanded: shipped files may lack connections)"""
+    out = []
+    for clause in INVARIANT_CLAUSES:
+        kinds = {}
+        for item, msg in inv[clause].items():
+            kinds.setdefault(item[0], []).append(msg)
+        for sub, msgs in sorted(kinds.items()):
+            out.append({'key': '%s:%s@build' % (clause, sub), 'step': -1,
+                        'what': 'in the geometry as constructed: %s%s' % (msgs[0], ' (+%d more)' % (len(msgs) - 1) if len(msgs) > 1 else '')})
+    return out
+
+
 def run_sequence(mg, recipe, ops, tmpdir=None, known=(), observer=None):
     """apply `ops` to the geometry of `recipe`, evaluating GeoInv after every operation.
     The sequence ends at the first violation whose key is not in `known`, or at an exception.
     returns (violations, trace, final geometry)"""
     g = build(mg, recipe)
     prev = geoinv(g)
-    viol, trace = [], []
+    viol, trace = judge_start(prev), []
+    if any(v['key'] not in known for v in viol):
+        return viol, trace, g
     if observer is not None and hasattr(observer, 'start'):
         observer.start(g, prev, {'step': -1})
     for step, op in enumerate(ops):
